@@ -144,6 +144,13 @@ Verdict(e) ==
       post == Overlay(pre, e.d)
   IN IF ~WordsOK(pre) THEN [id |-> e.id, v |-> <<"typeok.pre">>, path |-> "typeok"]
      ELSE IF ~WordsOK(post) THEN [id |-> e.id, v |-> <<"range">>, path |-> "typeok"]
+     ELSE IF e.act.n = "SameDelta" THEN
+          \* C05 positive path: the same instruction under a passing condition and under AL, from the
+          \* same pre-state, must have the same effect (e.d / e.d2 are the two recorded deltas)
+          \* (Thumb pairs that take an exception save CPSR, whose IT bits differ by construction, in the
+          \* SPSR: for those only the outcome is compared -- e.full says which)
+          [id |-> e.id, path |-> "pair:cond-pass",
+           v |-> IF e.out = e.out2 /\ (~e.full \/ e.d = e.d2) THEN <<>> ELSE <<"cond-pass-differs">>]
      ELSE IF e.act.n \in {"Step", "Exec"} THEN StepVerdict(e, pre, post)
      ELSE IF e.act.n = "Reset" THEN ResetVerdict(e, pre, post)
      ELSE ExcVerdict(e, pre, post)
